@@ -24,6 +24,7 @@ PROP_MODULES = {
     "C15": ["c15"],
     "C08": ["c08"],
     "C07": ["c07"],
+    "C04": ["c04"],
 }
 
 
